@@ -684,6 +684,13 @@ def paired_runs(ctx):
             a, b = paired.by_cell(ra), paired.by_cell(rb)
             for cid in sc.cell_ids:
                 diff = paired.compare_records(a[cid], b[cid], sc.tree.levels, bitwise=bitwise)
+                if diff and not bitwise:
+                    # relations that perturb the floats (non-power-of-two scaling, normalising in the harness):
+                    # a vote that is a near tie (within 1e-9) may legitimately flip; excused and counted
+                    j = sc.cell_ids.index(cid)
+                    if paired.near_tie_cell(sc, ra['output'], raw[j], sc.query_genes, 'raw'):
+                        ctx.extra['near_ties_excused'] = ctx.extra.get('near_ties_excused', 0) + 1
+                        continue
                 if diff:
                     ctx.disagreements_checked += 1
                     dd['class'] = f'c07-{name}'
